@@ -600,6 +600,9 @@ impl AsyncWrite for OrderW {
     fn poll_close(self: Pin<&mut Self>, _cx: &mut Context<'_>) -> Poll<io::Result<()>> { Poll::Ready(Ok(())) }
 }
 
+/// the counting writer has already accepted one byte (mid-reply start state)
+fn guard_len_set(g: &futures_util::lock::OwnedMutexGuard<CountW>) { let p: *const CountW = &**g; unsafe { (*(p as *mut CountW)).len = 1; } }
+
 fn glue_request<'a>(cfg: &'a Config, r: CountR, w: CountW, role: fcgi::Role, stream: Option<fcgi::RecordType>, writeable: bool,
                     buffered: usize, pending_out: usize) -> Request<'a, CountR, CountW> {
     let mut raw = [0u8; sv::B];
@@ -613,7 +616,7 @@ fn glue_request<'a>(cfg: &'a Config, r: CountR, w: CountW, role: fcgi::Role, str
     Request { parser, input: r, output: Arc::new(Mutex::new(w)), lock: None, writeable }
 }
 
-fn glue_poll_read_case(buffered_max: usize, pend_sym: bool, d_fixed: Option<usize>) {
+fn glue_poll_read_case(buffered_max: usize, pend_sym: bool, d_fixed: Option<usize>, mid_reply: bool) {
     let cfg = sv::cfg1();
     let gs: [u8; 8] = kani::any();
     unsafe { sv::GS_STREAM = gs; sv::GS_ERR_BUDGET = 1; }
@@ -622,6 +625,15 @@ fn glue_poll_read_case(buffered_max: usize, pend_sym: bool, d_fixed: Option<usiz
     let mut r = CountR::new(2, 1);
     r.fail = if kani::any() { 1 } else { 0 };
     let mut req = glue_request(&cfg, r, CountW::new(1, 1), fcgi::Role::Responder, Some(fcgi::RecordType::Stdin), true, buffered, pending_out);
+    if mid_reply {
+        // an earlier poll already put the first byte of a 2-byte reply on the wire and is holding the output lock
+        kani::assume(pending_out == 2 && buffered == 0);
+        req.parser.consume_output(1);
+        unsafe { sv::GS_OUT_TOTAL = 2; }
+        let guard = req.output.clone().try_lock_owned().expect("free");
+        guard_len_set(&guard);
+        req.lock = Some(RepeatableLockFuture::Done(guard));
+    }
     let mut cx = noop_cx();
     let d: usize = match d_fixed { Some(x) => x, None => { let x: usize = kani::any(); kani::assume(x <= 4); x } };
     let mut b = [0xEEu8; 4];
@@ -660,6 +672,11 @@ fn glue_poll_read_case(buffered_max: usize, pend_sym: bool, d_fixed: Option<usiz
                 std::mem::forget(w);
             } else {
                 kani::cover!(true, "suspended on the writer");
+                // C10: while a reply is only partly on the wire the output lock must stay with the request
+                if sv::x_out(&req.parser).1 > 0 || mid_reply {
+                    assert!(req.lock.is_some() && req.output.try_lock().is_none(), "C10: output lock released in the middle of a management reply (a StreamWriter could interleave its record)");
+                    kani::cover!(mid_reply, "writer not ready again in the middle of a reply: lock kept");
+                }
             }
             // bytes delivered by the parser in this call must not be lost by a Pending result
             assert!(req.parser.stream_buffer().len() == unsafe { sv::GS_POS }, "C09: stream bytes were delivered by the parser into the caller's buffer but the call returned Pending (bytes lost)");
@@ -669,7 +686,7 @@ fn glue_poll_read_case(buffered_max: usize, pend_sym: bool, d_fixed: Option<usiz
 }
 
 
-// @harness name=c09_glue_poll_read_min props=C09,C08,C12 tier=thorough timeout=1800 rmbody=ioerr,nogrow,nowaiters mem=20 unwindset=Request::<'_,.*>::poll_input$:5;Request::<'_,.*>::poll_output$:4;drop_glue::<.slab::Entry<.*>.>$:2 dead=2
+// @harness name=c09_glue_poll_read_min props=C09,C08,C12 tier=thorough timeout=1800 rmbody=ioerr,nogrow,nowaiters mem=20 unwindset=Request::<'_,.*>::poll_input$:5;Request::<'_,.*>::poll_output$:4;drop_glue::<.slab::Entry<.*>.>$:2 dead=3
 // @bound ONE poll of Request::poll_read against the parser contract: nothing buffered, no pending replies, caller buffer of 4 bytes; reader: <= 2 reads of symbolic size, <= 1 Pending, then EOF or error; writer: any split (<= 1 short write), <= 1 Pending; parser contract: any consumption / replies / delivery (<= 3 bytes per call) / end of stream / <= 1 error. Sequences of polls follow by induction over the symbolic state
 // @functions Request::poll_read, Request::poll_input, Request::poll_output, RepeatableLockFuture::poll
 #[kani::proof]
@@ -677,9 +694,9 @@ fn glue_poll_read_case(buffered_max: usize, pend_sym: bool, d_fixed: Option<usiz
 #[kani::stub(std::hash::RandomState::new, fixed_random_state)]
 #[kani::stub(stream::Parser::parse, sv::parse_contract)]
 #[kani::stub(stream::Parser::compress, sv::compress_contract)]
-fn c09_glue_poll_read_min() { glue_poll_read_case(0, false, Some(4)); }
+fn c09_glue_poll_read_min() { glue_poll_read_case(0, false, Some(4), false); }
 
-// @harness name=c09_glue_poll_read_pending props=C09,C08,C12 tier=quick timeout=2400 rmbody=ioerr,nogrow,nowaiters mem=20 unwindset=Request::<'_,.*>::poll_input$:5;Request::<'_,.*>::poll_output$:4;drop_glue::<.slab::Entry<.*>.>$:2 dead=1
+// @harness name=c09_glue_poll_read_pending props=C09,C08,C12 tier=quick timeout=2400 rmbody=ioerr,nogrow,nowaiters mem=20 unwindset=Request::<'_,.*>::poll_input$:5;Request::<'_,.*>::poll_output$:4;drop_glue::<.slab::Entry<.*>.>$:2 dead=2
 // @bound ONE poll of Request::poll_read against the parser contract: nothing buffered, 0 or 2 reply bytes pending, caller buffer 0..4; reader: <= 2 reads of symbolic size, <= 1 Pending, then EOF or error; writer: any split (<= 1 short write), <= 1 Pending; parser contract: any consumption / replies / delivery (<= 3 bytes per call) / end of stream / <= 1 error. Sequences of polls follow by induction over the symbolic state
 // @functions Request::poll_read, Request::poll_input, Request::poll_output, RepeatableLockFuture::poll
 #[kani::proof]
@@ -687,9 +704,9 @@ fn c09_glue_poll_read_min() { glue_poll_read_case(0, false, Some(4)); }
 #[kani::stub(std::hash::RandomState::new, fixed_random_state)]
 #[kani::stub(stream::Parser::parse, sv::parse_contract)]
 #[kani::stub(stream::Parser::compress, sv::compress_contract)]
-fn c09_glue_poll_read_pending() { glue_poll_read_case(0, true, None); }
+fn c09_glue_poll_read_pending() { glue_poll_read_case(0, true, None, false); }
 
-// @harness name=c09_glue_poll_read_buffered props=C09,C08,C12 tier=quick timeout=2400 rmbody=ioerr,nogrow,nowaiters mem=20 unwindset=Request::<'_,.*>::poll_input$:5;Request::<'_,.*>::poll_output$:4;drop_glue::<.slab::Entry<.*>.>$:2
+// @harness name=c09_glue_poll_read_buffered props=C09,C08,C12 tier=quick timeout=2400 rmbody=ioerr,nogrow,nowaiters mem=20 unwindset=Request::<'_,.*>::poll_input$:5;Request::<'_,.*>::poll_output$:4;drop_glue::<.slab::Entry<.*>.>$:2 dead=1
 // @bound ONE poll of Request::poll_read against the parser contract: 0..2 stream bytes buffered, 0 or 2 reply bytes pending, caller buffer 0..4; reader: <= 2 reads of symbolic size, <= 1 Pending, then EOF or error; writer: any split (<= 1 short write), <= 1 Pending; parser contract: any consumption / replies / delivery (<= 3 bytes per call) / end of stream / <= 1 error. Sequences of polls follow by induction over the symbolic state
 // @functions Request::poll_read, Request::poll_input, Request::poll_output, RepeatableLockFuture::poll
 #[kani::proof]
@@ -697,7 +714,7 @@ fn c09_glue_poll_read_pending() { glue_poll_read_case(0, true, None); }
 #[kani::stub(std::hash::RandomState::new, fixed_random_state)]
 #[kani::stub(stream::Parser::parse, sv::parse_contract)]
 #[kani::stub(stream::Parser::compress, sv::compress_contract)]
-fn c09_glue_poll_read_buffered() { glue_poll_read_case(2, true, None); }
+fn c09_glue_poll_read_buffered() { glue_poll_read_case(2, true, None, false); }
 
 // @harness name=c08_glue_parse_request props=C08,C07,C12 tier=quick timeout=2400 rmbody=ioerr,nogrow,nodropreq mem=30 unwindset=Token::parse_request::<.*>::.closure.0.$:4;WriteAll<.*>.as.futures_util::Future>::poll$:3
 // @bound Token::parse_request against the request parser's contract (any consumption, 0|2 reply bytes per call, done or not): 0..24 bytes handed over by the previous request; reader: 1 byte then EOF/error, <= 1 Pending; writer: <= 1 short write, <= 1 Pending; polled up to 3 times
@@ -888,6 +905,16 @@ fn c08_glue_record_boundary() {
     std::mem::forget(req);
 }
 
+
+// @harness name=c10_glue_reply_lock props=C10,C09,C08 tier=quick timeout=2400 rmbody=ioerr,nogrow,nowaiters mem=20 unwindset=Request::<'_,.*>::poll_input$:5;Request::<'_,.*>::poll_output$:4;drop_glue::<.slab::Entry<.*>.>$:2 dead=1
+// @bound ONE poll of Request::poll_read from the state "first byte of a 2-byte management reply already written, output lock held by the request": writer <= 1 Pending / <= 1 short write, reader <= 2 reads / <= 1 Pending, parser contract as in c09_glue_poll_read_*: the lock stays with the request until the reply is complete
+// @functions Request::poll_output, RepeatableLockFuture::poll, Request::poll_input
+#[kani::proof]
+#[kani::unwind(8)]
+#[kani::stub(std::hash::RandomState::new, fixed_random_state)]
+#[kani::stub(stream::Parser::parse, sv::parse_contract)]
+#[kani::stub(stream::Parser::compress, sv::compress_contract)]
+fn c10_glue_reply_lock() { glue_poll_read_case(0, true, None, true); }
 
 // ------------------------------------------------------------------------------------------------ C09: AsyncBufRead (poll_fill_buf / consume) against the parser contract
 
